@@ -41,10 +41,12 @@ Proof.
   unfold vr_float, v_float.
   destruct v as [| | |x| | | | | | | | | |]; simpl; try reflexivity.
   destruct val as [e|]; simpl.
-  - unfold float_value_ok. destruct pr as [pr|]; simpl.
-    + rewrite prec_total. simpl. destruct (prec_equal x e (iz pr)); simpl; [|reflexivity].
-      destruct mn, mx; reflexivity.
-    + destruct (isclose x e); simpl; [|reflexivity]. destruct mn, mx; reflexivity.
+  - unfold float_value_ok. destruct (is_nan x || is_nan e); simpl.
+    + destruct (is_nan x && is_nan e); simpl; [|reflexivity]. destruct mn, mx; reflexivity.
+    + destruct pr as [pr|]; simpl.
+      * rewrite prec_total. simpl. destruct (prec_equal x e (iz pr)); simpl; [|reflexivity].
+        destruct mn, mx; reflexivity.
+      * destruct (isclose x e); simpl; [|reflexivity]. destruct mn, mx; reflexivity.
   - destruct mn, mx; reflexivity.
 Qed.
 
